@@ -65,7 +65,7 @@ def setFh (mode : FhMode) (s : FState) (fh : Option FH.FH) : Except Err (Option 
   | .required, none => if s.fitted then .ok s.fh else .error .value
   | .required, some f =>
       if s.fitted then
-        (if (s.fh.map (·.vals)) == some f.vals then .ok s.fh else .error .value)
+        (if (s.fh.map (fun g => (g.vals, g.rel))) == some (f.vals, f.rel) then .ok s.fh else .error .value)
       else .ok (some f)
 
 /-- `fit(y, fh)` with an already validated horizon object (or none) -/
